@@ -1,4 +1,5 @@
 """C06 — no crash / memory corruption: the input-reachable crash mechanisms that have a structural necessary condition."""
+import os
 from ..frontend import AnalysisBroken
 from ..core import queries as Q
 from ..core import affine as A
@@ -495,6 +496,49 @@ def clause14_signed_shifts(ctx, P):
            "32-bit type first" % ", ".join(hits[:6]))
 
 
+# int literal << variable, used as an unsigned value: undefined as soon as the amount can reach 31.  The amounts at these sites of the
+# reference tree are bounded well below that (confirmed by reading); a site in another function must be looked at
+SHIFT_VAR_REFERENCE = {
+    ("http_parser.c", "parse_url_char"): "1 << UF_*: enumerators 0..6 of http_parser_url_fields",
+    ("http_parser.c", "http_parser_parse_url"): "1 << UF_* / 1 << uf: enumerators 0..6",
+    ("http_parser.c", "http_parse_host"): "1 << UF_*: enumerators 0..6",
+    ("deflate.c", "deflateInit2_"): "1 << w_bits (8..15), 1 << hash_bits (memLevel + 7 <= 16), 1 << (memLevel + 6) (<= 15)",
+    ("hashtable.h", "hashtable_create"): "1 << order: the configured table order (CONFIG_*_TABLE_ORDER, checked against the hop width by C17.1)",
+}
+
+
+def clause14b_literal_shifts(ctx, P):
+    """the second syntax-tree lint (sa/lints/shift_var.cq): an int literal shifted left by a non-constant amount whose result is used
+    as an unsigned value - undefined when the amount reaches 31.  Every match is either in a function of the reference table above
+    (amount bounded, with the reason) or reported"""
+    l = P.facts.get("macros", {}).get("__lints__")
+    if not l or l.get("shift_var_positive") != [10]:
+        raise AnalysisBroken("shift_var lint: the positive example did not match as expected (%s)" % (l or {}).get("shift_var_positive"))
+    starts = {}
+    for f in P.functions.values():
+        if f.file and f.line:
+            starts.setdefault(os.path.basename(f.file), []).append((f.line, f.srcname))
+    bad = []
+    n = 0
+    for hit in l["shift_var"]:
+        path, line = hit.split(":")[0], int(hit.split(":")[1])
+        base = os.path.basename(path)
+        n += 1
+        cands = sorted(x for x in starts.get(base, []) if x[0] <= line)
+        fn = cands[-1][1] if cands else "?"
+        # functions instantiated from hashtable.h carry the table's name: compare by prefix; their DI file is the including unit
+        key = next((k for k in SHIFT_VAR_REFERENCE if (k[0] == base or k[0] == "hashtable.h") and (fn == k[1] or fn.startswith(k[1] + "_"))), None)
+        if key is None and sum(1 for x in starts.get(base, []) if x[0] == line) > 3:
+            # all functions of a DECLARE_HASHTABLE_* instantiation carry the line of the macro call: the match is in hashtable.h
+            key = ("hashtable.h", "hashtable_create")
+        if key is None:
+            bad.append("%s (in %s)" % (hit, fn))
+    ctx.count("shift_var_lint_hits", n)
+    ctx.ob("C06.11 R-UB", "all-units", "literal-shifted-by-a-variable-stays-below-the-sign-bit", not bad,
+           "%s: an int literal is shifted left by a variable amount and the result used as an unsigned value, in a function where the "
+           "amount has not been confirmed to stay below 31 (e.g. 1 << j over up to 32 access groups): use an unsigned literal" % ", ".join(bad[:5]))
+
+
 # printf-like functions: name -> index of the format argument
 FORMATTED = {"printf": 0, "fprintf": 1, "dprintf": 1, "sprintf": 1, "snprintf": 2, "vprintf": 0, "vfprintf": 1, "vsprintf": 1, "vsnprintf": 2,
              "syslog": 1, "vsyslog": 1, "log_err": 0, "log_warn": 0, "log_info": 0, "log_peer_err": 1, "log_peer_info": 1}
@@ -578,6 +622,7 @@ def run(ctx):
         clause12_valuestring(ctx, P)
         clause13_format_strings(ctx, P)
         clause14_signed_shifts(ctx, P)
+        clause14b_literal_shifts(ctx, P)
         clause1_snprintf(ctx, P)
         c16.clause6_slots(ctx, P, cg)
         c12.clause2_callbacks(ctx, P, cg)
